@@ -209,3 +209,95 @@ def poly_coeffs(expr, vars_, repo, mod):
     if ev(**probe) != lin:
         raise Undecided('%s is not linear in %s' % (unparse(expr), vars_))
     return c0, co
+
+
+def resolve1(expr, defs, depth=3):
+    """follow a name through single whole-value definitions"""
+    while isinstance(expr, ast.Name) and depth > 0:
+        ds = defs.of(expr.id)
+        if len(ds) != 1 or ds[0][1] is not None:
+            break
+        expr = ds[0][0]
+        depth -= 1
+    return expr
+
+
+def component_expr(expr, defs, depth=3):
+    """(tuple-valued source expression, index) for `v[i]`, for a name bound by `v0, v1 = src` and for a name bound to `src[i]`;
+    the source expression is itself followed through single definitions.  None if the form is not recognised."""
+    if isinstance(expr, ast.Subscript):
+        i = expr.slice.value if isinstance(expr.slice, ast.Constant) else None
+        if isinstance(i, int):
+            return resolve1(expr.value, defs, depth), i
+        return None
+    if isinstance(expr, ast.Name):
+        ds = defs.of(expr.id)
+        if len(ds) == 1:
+            v, sel = ds[0]
+            if isinstance(sel, int):
+                return resolve1(v, defs, depth), sel
+            if sel is None and depth > 0:
+                return component_expr(v, defs, depth - 1)
+    return None
+
+
+def component_of(expr, defs, depth=3):
+    """component_expr with the source expression as text"""
+    c = component_expr(expr, defs, depth)
+    return (ast.unparse(c[0]), c[1]) if c else None
+
+
+def origin_path(expr, defs, depth=8):
+    """(text of the root expression, selector path) of a value obtained by unpacking / indexing / iterating: names are followed
+    through single definitions; the path lists 'elem' (loop or comprehension element) and integer positions from the root outwards.
+    `for a, b in xs` and `for t in xs: a, b = t` give a the same origin ('xs', ('elem', 0))."""
+    def flat(sel):
+        if sel is None:
+            return []
+        if isinstance(sel, tuple):
+            return flat(sel[0]) + [sel[1]]
+        return [sel]
+    if depth <= 0:
+        return ast.unparse(expr), ()
+    if isinstance(expr, ast.Subscript) and isinstance(expr.slice, ast.Constant) and isinstance(expr.slice.value, int):
+        r, p = origin_path(expr.value, defs, depth - 1)
+        return r, p + (expr.slice.value,)
+    if isinstance(expr, ast.Name):
+        ds = defs.of(expr.id)
+        if len(ds) == 1 and ds[0][1] not in ('aug', 'with', 'lambda-param') and not isinstance(ds[0][0], ast.Lambda):
+            v, sel = ds[0]
+            r, p = origin_path(v, defs, depth - 1)
+            return r, p + tuple(flat(sel))
+    return ast.unparse(expr), ()
+
+
+def call_targets(call, defs):
+    """dotted names the callee of `call` may denote: the callee itself, or -- for a local bound to function references
+    (`f = os.link` / `f = os.symlink` in the branches, then `f(...)`) -- every reference it is bound to"""
+    from .cfg import dotted
+    f = call.func
+    d = dotted(f)
+    if isinstance(f, ast.Name) and defs is not None:
+        ds = defs.of(f.id)
+        refs = [dotted(v) for v, sel in ds if sel is None and isinstance(v, (ast.Name, ast.Attribute))]
+        if ds and len(refs) == len(ds) and all(refs):
+            return refs
+        if ds and all(isinstance(v, ast.IfExp) and sel is None for v, sel in ds):
+            out = []
+            for v, sel in ds:
+                for b in (v.body, v.orelse):
+                    if dotted(b):
+                        out.append(dotted(b))
+            if out:
+                return out
+    return [d] if d else []
+
+
+def calls_to(g, defs, *names):
+    """[(cfg node, call)] for calls whose callee is, or is a local bound only to, one of the dotted names"""
+    def hit(x):
+        if not isinstance(x, ast.Call):
+            return False
+        t = call_targets(x, defs)
+        return bool(t) and all(any(n == m or n.endswith('.' + m) for m in names) for n in t)
+    return g.find(hit)
